@@ -378,6 +378,41 @@ type CDef struct {
 	V    string
 }
 
+// ---- T19: a struct of value-typed fields of every kind, bool included, embedded by pointer (nil and
+// non-nil at Create) and by value ----
+type Flags struct {
+	On  bool
+	Lvl int8
+	N   int64
+	U   uint16
+	F   float64
+	S   string
+	T   time.Time
+	NS  sql.NullString
+	Tg  Tag
+}
+type PEmb struct {
+	ID     uint   `gorm:"primaryKey"`
+	Mark   string `gorm:"uniqueIndex"`
+	Opt    *Flags `gorm:"embedded;embeddedPrefix:opt_"`
+	*Flags        // anonymous pointer embedding, no prefix
+	Val    Flags  `gorm:"embedded;embeddedPrefix:val_"`
+	V      int64
+}
+
+// ---- T20: named serializers on scalar numeric fields and pointers to them ----
+type NumSer struct {
+	ID   uint     `gorm:"primaryKey"`
+	Mark string   `gorm:"uniqueIndex"`
+	JI   int      `gorm:"serializer:json"`
+	JI8  int8     `gorm:"serializer:json"`
+	JU   uint32   `gorm:"serializer:json"`
+	JF   float64  `gorm:"serializer:json"`
+	JPI  *int64   `gorm:"serializer:json"`
+	JPF  *float64 `gorm:"serializer:json"`
+	JS   string   `gorm:"serializer:json"`
+}
+
 // ---- T11: the same struct embedded twice with different prefixes, inner `column:` rename ----
 type Addr struct {
 	City string
@@ -401,7 +436,7 @@ var registry = []struct {
 	{"Ints", reflect.TypeOf(Ints{})}, {"Scalars", reflect.TypeOf(Scalars{})}, {"Nulls", reflect.TypeOf(Nulls{})},
 	{"Sers", reflect.TypeOf(Sers{})}, {"Embs", reflect.TypeOf(Embs{})}, {"Defs", reflect.TypeOf(Defs{})},
 	{"Comp", reflect.TypeOf(Comp{})}, {"Keyed", reflect.TypeOf(Keyed{})}, {"StrKey", reflect.TypeOf(StrKey{})},
-	{"UnixU", reflect.TypeOf(UnixU{})}, {"Twice", reflect.TypeOf(Twice{})}, {"Loc", reflect.TypeOf(Loc{})}, {"Uid", reflect.TypeOf(Uid{})}, {"PTimes", reflect.TypeOf(PTimes{})}, {"Modeled", reflect.TypeOf(Modeled{})}, {"Defs2", reflect.TypeOf(Defs2{})}, {"SDef", reflect.TypeOf(SDef{})}, {"CDef", reflect.TypeOf(CDef{})},
+	{"UnixU", reflect.TypeOf(UnixU{})}, {"Twice", reflect.TypeOf(Twice{})}, {"Loc", reflect.TypeOf(Loc{})}, {"Uid", reflect.TypeOf(Uid{})}, {"PTimes", reflect.TypeOf(PTimes{})}, {"Modeled", reflect.TypeOf(Modeled{})}, {"Defs2", reflect.TypeOf(Defs2{})}, {"SDef", reflect.TypeOf(SDef{})}, {"CDef", reflect.TypeOf(CDef{})}, {"PEmb", reflect.TypeOf(PEmb{})}, {"NumSer", reflect.TypeOf(NumSer{})},
 }
 
 func typeByName(n string) reflect.Type {
